@@ -31,7 +31,7 @@ Lower(c)    == IF c \in UpSet THEN LowerFn[c]
                ELSE IF c = "EACUTEU" THEN "EACUTE" ELSE c
 LowerSeq(w) == [i \in 1..Len(w) |-> Lower(w[i])]
 (* punctuationMappings, then lower-casing *)
-MapLower(c) == CASE c \in {"-", "FIGDASH", "ENDASH", "EMDASH", "HYPHEN"} -> <<"-">>
+MapLower(c) == CASE c \in {"-", "FIGDASH", "ENDASH", "EMDASH", "HYPHEN", "NBHYPHEN", "HBAR", "MINUS"} -> <<"-">>     \* U+2011, U+2015, U+2212: fix
                  [] c = "COPY"                 -> <<"(", "c", ")">>
                  [] c \in {"SECT", "CURR"}     -> <<"(", "s", ")">>
                  [] c \in {"MIDDOT", "*"}      -> <<" ">>
